@@ -111,7 +111,9 @@ class FieldImpl(object):
         else:
             disc = "x"
         self.opt = bool(cfg.get("opt", 1))
-        self.idx = FieldIndex(disc, family=fam)
+        self.mk = lambda: FieldIndex(disc, family=fam)
+        self.idx = self.mk()
+        self.current = {}
 
     def val(self, r):
         return None if r == "none" else self.pool[r]
@@ -144,8 +146,8 @@ class FieldImpl(object):
                 "notinrange": "applyNotInRange"}[op]
         return idset(getattr(idx, name)(*args))
 
-    def obs(self):
-        idx = self.idx
+    def obs(self, idx=None):
+        idx = idx or self.idx
         uv = [self.rank[repr(v)] for v in idx.unique_values()]
         return "indexed=%s ni=%s docids=%s ic=%d nic=%d dc=%d wc=%d uv=[%s]" % (
             idset(idx.indexed()), idset(idx.not_indexed()), idset(idx.docids()), idx.indexed_count(),
@@ -155,17 +157,26 @@ class FieldImpl(object):
         try:
             op = c[0]
             if op == "index":
-                r = self.idx.index_doc(c[1], self.doc(c[2])) if c[-1] != "re" else None
+                self.current[c[1]] = c[2]
+                self.idx.index_doc(c[1], self.doc(c[2]))
                 return "ok"
             if op == "reindex":
+                self.current[c[1]] = c[2]
                 self.idx.reindex_doc(c[1], self.doc(c[2]))
                 return "ok"
             if op == "unindex":
+                self.current.pop(c[1], None)
                 self.idx.unindex_doc(c[1])
                 return "ok"
             if op == "reset":
+                self.current = {}
                 self.idx.reset()
                 return "ok"
+            if op == "obsfresh":
+                fresh = self.mk()
+                for d, r in self.current.items():
+                    fresh.index_doc(d, self.doc(r))
+                return self.obs(fresh)
             if op == "q":
                 return self.query(False, c[1:])
             if op == "qx":
